@@ -723,7 +723,7 @@ func ruleC09Dispatch(p *Program, r *Run, sites []tokenSite) {
 			switch x := d.(type) {
 			case *ast.CallExpr:
 				if f := Callee(info, x); f != nil {
-					atoms = append(atoms, f.Name()+"(c)")
+					atoms = append(atoms, fnName(f)+"(c)")
 				}
 			case *ast.BinaryExpr:
 				if v := constOf(info, x.Y); v != nil && x.Op == token.EQL {
@@ -1134,7 +1134,7 @@ func ruleC09Spans(p *Program, r *Run) {
 	indexSpanF := FuncObj(pkg, p.MustFunc(pkg, "indexSpan"))
 	isScannerPos := func(e ast.Expr) bool {
 		sel, ok := ast.Unparen(e).(*ast.SelectorExpr)
-		if !ok || sel.Sel.Name != "pos" {
+		if !ok || selName(sel) != "pos" {
 			return false
 		}
 		t := info.TypeOf(sel.X)
